@@ -53,6 +53,7 @@ type JStop struct {
 	ThenStop   bool  `json:"then_stop"`   // after cancel, also call Stop() to wait
 	NeverRel   bool  `json:"never_release"` // consumer never sends the release signal
 	StopReader bool  `json:"stop_reader"` // consumer stops reading at StallAt forever
+	Second     bool  `json:"second_stop"` // a second goroutine calls Stop() concurrently
 }
 
 func (sc *JoinSc) class() string { return sc.Class }
@@ -242,6 +243,7 @@ func genJoin(engine, prop string, r *simrt.SplitMix) *JoinSc {
 	if sc.Class == "stop" {
 		st := &JStop{Cancel: r.Intn(2) == 0}
 		st.ThenStop = st.Cancel && r.Intn(2) == 0
+		st.Second = r.Intn(4) == 0
 
 		if r.Intn(2) == 0 {
 			st.AtStep = int64(between(r, 1, 60+8*n))
@@ -449,6 +451,14 @@ func buildJoin(sc *JoinSc) (simrt.Config, func()) {
 					simrt.WaitStep(st.AtStep)
 				} else {
 					simrt.Sleep("env:controller", ns(st.AtNs))
+				}
+
+				if st.Second {
+					simrt.GoEnv("stop2", func() {
+						simrt.Note("stop2-call", 0, 0)
+						h.stop()
+						simrt.Note("stop2-returned", 0, 0)
+					})
 				}
 
 				if st.Cancel {
@@ -1135,6 +1145,17 @@ func checkJoinStop(v *Verdict, sc *JoinSc, jv joinView, res *simrt.Result) {
 	if jv.stopCall < 0 && jv.cancelSeq < 0 {
 		// the run ended (input drained) before the controller acted
 		v.probe("stop-after-termination")
+	}
+
+	hh := hist(res.Hist)
+
+	if c, called := hh.firstNote("stop2-call"); called {
+		v.probe("second-concurrent-stop")
+
+		if _, ret := hh.firstNote("stop2-returned"); !ret {
+			v.failFacts("second-stop-not-returned", facts, "a second Stop() (seq %d) did not return within %dns (%s)", c.Seq, sc.Horizon, stuck(res))
+			return
+		}
 	}
 
 	if jv.stopRet >= 0 && (jv.outClosed < 0 || jv.outClosed > jv.stopRet) {
